@@ -409,6 +409,7 @@ impl<T: Copy> Buffer<T> {
             // newpos below is taken to mean "the whole buffer".)
             return;
         }
+        crate::stream::note_activity();
         let newpos = (s.rpos + n) % s.capacity();
         use std::ops::Bound::{Excluded, Included};
 
@@ -475,6 +476,7 @@ impl<T: Copy> Buffer<T> {
         }
         s.wpos = (s.wpos + n) % s.capacity();
         s.used += n;
+        crate::stream::note_activity();
         cv.notify_all();
     }
 
